@@ -1,207 +1,1 @@
-import TLVerif.Acks.Acks
-import TLVerif.Acks.AcksBuildLemmas
-import TLVerif.Acks.AcksCanonLemmas
-import TLVerif.Acks.AcksLemmas
-import TLVerif.Acks.Driver
-import TLVerif.Acks.Heap
-import TLVerif.Acks.HeapLemmas
-import TLVerif.Algo.Avl
-import TLVerif.Algo.AvlLemmas
-import TLVerif.Algo.Circular
-import TLVerif.Algo.CircularLemmas
-import TLVerif.Algo.Driver
-import TLVerif.Codec.Desc
-import TLVerif.Codec.Driver
-import TLVerif.Codec.Json
-import TLVerif.Codec.JsonAlt
-import TLVerif.Codec.JsonLemmas
-import TLVerif.Codec.JsonPrim
-import TLVerif.Codec.JsonText
-import TLVerif.Codec.JsonTextLemmas
-import TLVerif.Codec.Ops.Common
-import TLVerif.Codec.Ops.HandShape
-import TLVerif.Codec.Ops.Json
-import TLVerif.Codec.Ops.Misc
-import TLVerif.Codec.Ops.TL1
-import TLVerif.Codec.Ops.TL2
-import TLVerif.Codec.Registry
-import TLVerif.Codec.TL1
-import TLVerif.Codec.TL1Canon
-import TLVerif.Codec.TL1Example
-import TLVerif.Codec.TL1Lemmas
-import TLVerif.Codec.TL1Normal
-import TLVerif.Codec.TL1RoundTrip
-import TLVerif.Codec.TL1Total
-import TLVerif.Codec.TL1Wf
-import TLVerif.Codec.TL2
-import TLVerif.Codec.TL2Evolution
-import TLVerif.Codec.TL2Lemmas
-import TLVerif.Codec.TL2RoundTrip
-import TLVerif.Codec.Val
-import TLVerif.Codec.Zero
-import TLVerif.Generated.AcksFacts
-import TLVerif.Generated.AlgoFacts
-import TLVerif.Generated.JsonpFacts
-import TLVerif.Generated.PacketFacts
-import TLVerif.Generated.PrimFacts
-import TLVerif.Generated.RpccallsFacts
-import TLVerif.Generated.SemaFacts
-import TLVerif.Generated.SyntaxFacts
-import TLVerif.Generated.Syntaxtl2Facts
-import TLVerif.Generated.TlomigFacts
-import TLVerif.Generated.ToolFacts
-import TLVerif.Generated.ToolMapsExpect
-import TLVerif.Generated.ToolMapsFacts
-import TLVerif.Jsonp.Base64
-import TLVerif.Jsonp.Base64Lemmas
-import TLVerif.Jsonp.Driver
-import TLVerif.Jsonp.Float
-import TLVerif.Jsonp.FloatFiniteLemmas
-import TLVerif.Jsonp.FloatLemmas
-import TLVerif.Jsonp.NumLemmas
-import TLVerif.Jsonp.Reader
-import TLVerif.Jsonp.StringLemmas
-import TLVerif.Jsonp.Utf8
-import TLVerif.Jsonp.Utf8Lemmas
-import TLVerif.Jsonp.Writer
-import TLVerif.Lint.Ast
-import TLVerif.Lint.Core
-import TLVerif.Lint.CoreLemmas
-import TLVerif.Lint.Driver
-import TLVerif.Lint.Examples
-import TLVerif.Lint.Spec
-import TLVerif.Lint.Wire
-import TLVerif.Lint.WireGen
-import TLVerif.Lint.WireLemmas
-import TLVerif.Packet.AcceptLemmas
-import TLVerif.Packet.Aes
-import TLVerif.Packet.Basic
-import TLVerif.Packet.BasicLemmas
-import TLVerif.Packet.CbcLemmas
-import TLVerif.Packet.ConnLemmas
-import TLVerif.Packet.Crc
-import TLVerif.Packet.CrcLemmas
-import TLVerif.Packet.Driver
-import TLVerif.Packet.FrameLemmas
-import TLVerif.Packet.Reader
-import TLVerif.Packet.ReaderLemmas
-import TLVerif.Packet.RealEnv
-import TLVerif.Packet.RoundtripLemmas
-import TLVerif.Packet.Script
-import TLVerif.Packet.ScriptLemmas
-import TLVerif.Packet.ToyEnv
-import TLVerif.Prim.Driver
-import TLVerif.Prim.TL1String
-import TLVerif.Prim.TL1StringLemmas
-import TLVerif.Prim.TL2Size
-import TLVerif.Prim.TL2SizeLemmas
-import TLVerif.Props.C01
-import TLVerif.Props.C02
-import TLVerif.Props.C03
-import TLVerif.Props.C04
-import TLVerif.Props.C05
-import TLVerif.Props.C06
-import TLVerif.Props.C13
-import TLVerif.Props.C14
-import TLVerif.Props.C15
-import TLVerif.Props.C16
-import TLVerif.Props.C17
-import TLVerif.Props.C19
-import TLVerif.Props.C20
-import TLVerif.Props.C21
-import TLVerif.Props.C22
-import TLVerif.Props.C23
-import TLVerif.Props.C24
-import TLVerif.Props.C25
-import TLVerif.Props.C26
-import TLVerif.Props.C27
-import TLVerif.Props.C28
-import TLVerif.Props.C29
-import TLVerif.Props.C30
-import TLVerif.Props.C33
-import TLVerif.Props.C34
-import TLVerif.Props.C35
-import TLVerif.Props.C36
-import TLVerif.Props.C36Window
-import TLVerif.Props.C37
-import TLVerif.Props.C38
-import TLVerif.Props.C39
-import TLVerif.Props.C41
-import TLVerif.Props.C42
-import TLVerif.Props.CodecTL1Extra
-import TLVerif.Rpccalls.ClientConn
-import TLVerif.Rpccalls.ClientConnLemmas
-import TLVerif.Rpccalls.Driver
-import TLVerif.Rpccalls.ReqMem
-import TLVerif.Rpccalls.ServerLimitsLemmas
-import TLVerif.Rpccalls.WorkerPool
-import TLVerif.Sema.Driver
-import TLVerif.Sema.Semaphore
-import TLVerif.Sema.SemaphoreLemmas
-import TLVerif.Syntax.Ast
-import TLVerif.Syntax.CanonLemmas
-import TLVerif.Syntax.Crc32
-import TLVerif.Syntax.DocCanonical
-import TLVerif.Syntax.Driver
-import TLVerif.Syntax.Dump
-import TLVerif.Syntax.Lexer
-import TLVerif.Syntax.LexerLemmas
-import TLVerif.Syntax.PError
-import TLVerif.Syntax.Parser
-import TLVerif.Syntax.ParserLemmas
-import TLVerif.Syntax.ParserLemmas2
-import TLVerif.Syntax.Printer
-import TLVerif.Syntax.PrinterLemmas
-import TLVerif.Syntax.Token
-import TLVerif.Syntaxtl2.AnonResultLemmas
-import TLVerif.Syntaxtl2.Ast
-import TLVerif.Syntaxtl2.Basic
-import TLVerif.Syntaxtl2.CombLemmas
-import TLVerif.Syntaxtl2.DeclLemmas
-import TLVerif.Syntaxtl2.Driver
-import TLVerif.Syntaxtl2.ErrorPrint
-import TLVerif.Syntaxtl2.ErrorPrintLemmas
-import TLVerif.Syntaxtl2.FieldLemmas
-import TLVerif.Syntaxtl2.FileLemmas
-import TLVerif.Syntaxtl2.Format
-import TLVerif.Syntaxtl2.FormatLemmas
-import TLVerif.Syntaxtl2.Lexer
-import TLVerif.Syntaxtl2.LexerLemmas
-import TLVerif.Syntaxtl2.Parser
-import TLVerif.Syntaxtl2.ParserLemmas
-import TLVerif.Syntaxtl2.PositionLemmas
-import TLVerif.Syntaxtl2.RoundTripLemmas
-import TLVerif.Syntaxtl2.StripLemmas
-import TLVerif.Syntaxtl2.StructLemmas
-import TLVerif.Syntaxtl2.Text
-import TLVerif.Syntaxtl2.UnionLemmas
-import TLVerif.Syntaxtl2.VariantLemmas
-import TLVerif.Tlomig.Ast
-import TLVerif.Tlomig.Driver
-import TLVerif.Tlomig.GenTlo
-import TLVerif.Tlomig.GenTloLemmas
-import TLVerif.Tlomig.Mig
-import TLVerif.Tlomig.MigLemmas
-import TLVerif.Tlomig.Sexp
-import TLVerif.Tlomig.Tls
-import TLVerif.Tlomig.TlsLemmas
-import TLVerif.Tlomig.TlsWf
-import TLVerif.Tool.Deconflict
-import TLVerif.Tool.DeconflictLemmas
-import TLVerif.Tool.Driver
-import TLVerif.Tool.OutDir
-import TLVerif.Tool.OutDirLemmas
-import TLVerif.Tool.RelPath
-import TLVerif.Tool.RelPathLemmas
-import TLVerif.Tool.Tags
-import TLVerif.Tool.TagsLemmas
-import TLVerif.Tool.Walk
-import TLVerif.Tool.WalkLemmas
-import TLVerif.Udp.Driver
-import TLVerif.Udp.Monitor
-import TLVerif.Udp.MonitorLemmas
-import TLVerif.Udp.ReleaseLemmas
-import TLVerif.Udp.SysLemmas
-import TLVerif.Udp.Window
-import TLVerif.Udp.WindowLemmas
 import TLVerif.Util.Hex
